@@ -658,17 +658,21 @@ def check_C10(ctx):
             if key.startswith("cfg_"): c["files"] = dict(c["files"], **{"my.cfg": {"cfg": {key[4:]: "nowhere.yaml"}}}); c["f_config"] = "my.cfg"
             else: c[key] = "nowhere.yaml"
             mcases.append(c)
-    mres = cli_diff(ctx, mcases, tag="C10:missing-file:")
+            # an EMPTY name given by flag or environment (`-l "$LOG"` with LOG unset): a file that cannot be opened, not "nothing to read"
+            if not key.startswith("cfg_"):
+                c2 = dict(files={"food.yaml": book0, "log.yaml": log0}, f_today="2021/01/05", **form, **NOCOLOR); c2[key] = ""; c2["_empty_name"] = True
+                mcases.append(c2)
+    mres = cli_diff(ctx, [{k2: v for k2, v in c.items() if k2 != "_empty_name"} for c in mcases], tag="C10:missing-file:")
     for c, i in zip(mcases, mres):
         reads = READS.get(c["cmd"], [])
         named = "log.yaml" if any(k2 in c for k2 in ("f_log", "e_log")) or "log" in (c["files"].get("my.cfg") or {}).get("cfg", {}) else "food.yaml"
         if c["cmd"] != "lint" and named in reads and i["status"] == "ok":
-            ctx.violation("C10:success-on-missing-file:" + c["cmd"], "%s reports success although its %s does not exist" % (c["cmd"], named), dict(kind="cli", case=c, impl=i))
+            ctx.violation("C10:success-on-%s:%s" % ("empty-file-name" if c.get("_empty_name") else "missing-file", c["cmd"]), "%s reports success although its %s %s" % (c["cmd"], named, "was given an empty name" if c.get("_empty_name") else "does not exist"), dict(kind="cli", case=c, impl=i))
     return dict(rule="S-SCAN: for %d small files every byte offset 0..len+1 at which the reader starts failing, with reads of 1, 3 and 4096 bytes, exact callback sequence and returned "
                 "error vs the model (and the returned error must be non-nil); lines of 65535 / 65536 / 70000 bytes at first, middle, last position, LF / CRLF / unterminated; the same "
                 "files and a directory given as log or book through every command on the real binary; a reader that fails from byte k on for EVERY k of a small log / book through 16 command "
                 "forms in-process (outcome and the bytes written so far vs the model; success is a violation), also with the failure behind the end of the period; a file that does not exist "
-                "named by flag, environment or configuration file. Non-trivial = distinct file (all offsets) / distinct (command, file shape)" % nfiles,
+                "named by flag, environment or configuration file, and an empty name given by flag or environment. Non-trivial = distinct file (all offsets) / distinct (command, file shape)" % nfiles,
                 extra=dict(exhaustive_offsets=True))
 
 from .props2 import *     # noqa: E402,F401  (part 2 of the per-property checks; imports the helpers above)
